@@ -290,6 +290,8 @@ class Ledger(object):
         x.delay = delay
         self.seqno += 1
         x.seq = self.seqno
+        if x.kind == "retry" and c is not None and c.retry_of is not None:
+            x.seq = getattr(c.retry_of, "seq", x.seq)      # a retried attempt continues the same record
         self.routes_seen.setdefault(task, set()).add(route)
         self.execs.append(x)
         t = self.p["tasks"][task]
